@@ -173,9 +173,10 @@ def correspond(ctx):
                     mats['y'] = matrix([val(tc) for _ in range(Ly)], (Ly, 1), tc)
                 kw['n'] = ndef
             # sometimes corrupt one integer argument (exercises the reject path: arguments must stay untouched)
+            corrupted = False
             if rng.random() < 0.12 and not omit_n:
                 ik = [q for q in kw if isinstance(kw[q], int) and not isinstance(kw[q], bool)]
-                if ik: kw[rng.choice(ik)] = rng.choice([-1, 0, 9, 17])
+                if ik: kw[rng.choice(ik)] = rng.choice([-1, 0, 9, 17]); corrupted = True
             # the protocol line: everything the generated prefix needs
             env = {}
             for q, M in mats.items():
@@ -199,6 +200,11 @@ def correspond(ctx):
                 if name == 'nrm2' and res is not None: o += ' val2~%r' % (res * res)
             except Exception as e:
                 o = 'reject ' + type(e).__name__
+                if not corrupted:
+                    # completeness: the call was built to be consistent (typecodes equal, dimensions >= 0, leading dimensions >= the minimum,
+                    # every addressed footprint inside its buffer, flags from the documented set): it must be carried out
+                    ctx.violation('c17:valid-call-rejected:' + name, 'blas.%s refused a consistent call with %s (%s): %s' % (name, type(e).__name__, e, {k: v for k, v in kw.items()}),
+                                  {'line': line, 'kw': {k: (v if not isinstance(v, complex) else [v.real, v.imag]) for k, v in kw.items()}, 'sizes': {q: len(M) for q, M in mats.items()}})
                 if any(list(mats[q]) != before[q] for q in mats):
                     ctx.violation('c17:rejected-call-modified-arguments:' + name, 'blas.%s raised %s but modified an argument' % (name, type(e).__name__), {'line': line})
             lines.append(line); obs.append(o); meta.append((name, dict(kw)))
